@@ -192,6 +192,9 @@ def verdict (s : OState) : String :=
     if s.reads.isEmpty && s.closeEnd == "fatal" && s.closeSt == "ok" && !s.aborted && s.written.all (·.hst == "ok") && !s.written.isEmpty then
       s!"C02 {tag} every entry accepted with ARCHIVE_OK but the archive cannot be read back at all"
     else
+    if s.filter != "none" && s.closeEnd == "fatal" && s.closeSt == "ok" && !s.aborted && s.written.any (accepted f) then
+      s!"C02 {tag} the filtered stream cannot be read back to its end (end=fatal after {s.reads.length} entries)"
+    else
     if s.closeSt == "fatal" || s.closeSt == "failed" then
       s!"C10 {tag} close failed status={s.closeSt} after the entries were accepted"
     else
